@@ -52,7 +52,7 @@ def run(tier, seed):
     dump(probs, d / "problems.json")
     cfg = d / "CallProtocol.cfg"
     entries = '{"method", "evaluate", "evaluate_cffi"}' if tier == "quick" else '{"method", "evaluate", "evaluate_cffi", "method_cffi"}'
-    cfg.write_text(f"SPECIFICATION Spec\nCONSTANTS\n  Entries = {entries}\nINVARIANT Emit\nINVARIANT EnteredOnlyConsistent\nINVARIANT RefusedOnlyInconsistent\n"
+    cfg.write_text(f"SPECIFICATION Spec\nCONSTANTS\n  Entries = {entries}\nINVARIANT Emit\nINVARIANT EnteredOnlyConsistent\nINVARIANT RefusedOnlyInconsistent\nINVARIANT PhaseOneEnters\n"
                    "CHECK_DEADLOCK FALSE\n")
     r = run_tlc("CallProtocol", str(cfg), env={"VF_PROBLEMS": d / "problems.json"})
     import shutil
@@ -60,14 +60,15 @@ def run(tier, seed):
     shutil.rmtree(d, ignore_errors=True)
     if r.violated:
         raise MachineryError(f"C10: the modelled protocol violates its own design invariant: {r.violated}")
-    lines = r.lines
+    # deterministic order (TLC's 16 workers print in any order; calls of one cached method follow each other)
+    lines = sorted(r.lines, key=lambda l: (l["problem"], l["entry"], l["primed"], l["fault"]["kind"], l["fault"]["name"], l["fault"]["a"], l["fault"]["b"]))
     cases = []
     for i, l in enumerate(lines):
         text, formats = PROBLEMS[l["problem"] - 1]
         asg = exprs.parse(text)
         cases.append({"cid": i, "entry": l["entry"], "text": text, "formats": formats,
                       "output_format": formats[asg["target"]], "args": l["args"] if isinstance(l["args"], dict) else {},
-                      "positional": l["positional"]})
+                      "positional": l["positional"], "primed": l["primed"], "base": l["base"] if isinstance(l["base"], dict) else {}})
     tasks = [{"id": str(b), "op": "call_batch", "cases": cases[b:b + 80]} for b in range(0, len(cases), 80)]
     nat = Pool().run(tasks)
     vio, judged, entered_ok, refused_ok = [], 0, 0, 0
@@ -81,12 +82,13 @@ def run(tier, seed):
         for o in res["outs"]:
             l = lines[o["cid"]]
             text = PROBLEMS[l["problem"] - 1][0]
-            desc = f"{l['entry']} {text} fault={l['fault']['kind']}({l['fault']['name']},{l['fault']['a']},{l['fault']['b']})"
+            desc = f"{l['entry']} {text} fault={l['fault']['kind']}({l['fault']['name']},{l['fault']['a']},{l['fault']['b']})" + \
+                   (" right after a consistent call with arguments of equal content" if l["primed"] else "")
             judged += 1
 
             def bad(clause, detail):
                 vio.append({"what": f"{clause}: {desc}: {detail}",
-                            "key": {"clause": clause, "fault": l["fault"]["kind"], "entry": l["entry"]}, "check": "c10",
+                            "key": {"clause": clause, "fault": l["fault"]["kind"], "entry": l["entry"], "primed": l["primed"]}, "check": "c10",
                             "case": {"line": l, "outcome": o}})
 
             if not l["consistent"]:
@@ -116,7 +118,7 @@ def run(tier, seed):
            "samples": [l for l in lines if l["fault"]["kind"] == "dim"][:2] + [l for l in lines if l["fault"]["kind"] == "mode"][:1],
            "entered_consistent": entered_ok, "refused_properly": refused_ok, "exhaustive": True,
            "design_invariants": ["EnteredOnlyConsistent", "RefusedOnlyInconsistent"]}
-    return {"violations": vio, "coverage": cov, "assumptions": ["argument tensors are empty tensors of the stated format/dimensions"]}
+    return {"violations": vio, "coverage": cov, "assumptions": ["argument tensors hold one entry at the origin (none when a dimension is 0) in the stated format/dimensions"]}
 
 
 def replay(data):
